@@ -63,6 +63,8 @@ type VC struct {
 	effective *Contract // contract merged with the inherited interface-level contract
 	aliases    map[string]string // contract name -> current name of a renamed local variable (REBOUND)
 	pathCovers bool // thorough tier: one reachability query per finished path
+	provisionalLoads map[string]bool // field arrays whose entry value stands in for an in-loop re-read (loopModifies)
+	curLoop          *loopInfo
 	entryMeasure   []Term // the function's recursion measure in its entry state (term.go)
 	recursiveCalls int    // call sites found to be recursive (same strongly connected component)
 	callSeq, curCallSeq int // numbering of contract applications (names of per-call unknowns)
